@@ -240,6 +240,8 @@ pub struct ServerCfg {
     pub auth: Auth,
     /// replies for pgcat's auth_query: user -> md5 hash ("md5....")
     pub auth_query: Mutex<HashMap<String, String>>,
+    /// statement texts carrying the `failonce` directive whose first Parse has already been rejected by this backend
+    pub failed_once: Mutex<std::collections::HashSet<String>>,
 }
 
 pub struct MockServer {
@@ -850,6 +852,10 @@ impl Session {
                 merge_dir(&mut self.ext_dir, &stmt.directive);
                 if stmt.directive.failparse {
                     self.ext_fail("42601", "syntax error (directed)", stmt.tag);
+                    return None;
+                }
+                if stmt.directive.failonce && self.cfg.failed_once.lock().unwrap().insert(p.sql.clone()) {
+                    self.ext_fail("42P01", "relation does not exist (directed, first attempt only)", stmt.tag);
                     return None;
                 }
                 if !p.name.is_empty() && self.stmts.contains_key(&p.name) {
